@@ -232,8 +232,12 @@ def differential(fam, cfg, seed, n=2):
         for nme, ok, _ in cctx.claims:
             con_claims.setdefault(nme, True)
             con_claims[nme] = con_claims[nme] and ok
-        if sym_claims != con_claims:
-            diff = {k: (sym_claims.get(k), con_claims.get(k)) for k in set(sym_claims) | set(con_claims)
+        # claims a harness makes in one mode only (e.g. about recorded stub calls) are not comparable;
+        # escaped exceptions and non-finite outcomes always are
+        special = lambda k: k.startswith("no-unexpected-exception") or k.startswith("finite-values")
+        keys = {k for k in set(sym_claims) | set(con_claims) if special(k) or (k in sym_claims and k in con_claims)}
+        if any(sym_claims.get(k) != con_claims.get(k) for k in keys):
+            diff = {k: (sym_claims.get(k), con_claims.get(k)) for k in keys
                     if sym_claims.get(k) != con_claims.get(k)}
             problems.append({"cfg": cfg, "model": {k: str(v) for k, v in model.items()}, "claims(sym,float)": diff})
         vals = None
